@@ -7,13 +7,22 @@ REAL code driven (from the repo given in argv[1]):
                                        (state construction), _compile_ql_transaction
   edb.server.compiler_pool.worker      compile_in_tx (LAST_STATE / REUSE marker / pickling)
   edb.server.compiler_pool.pool        AbstractPool.compile_in_tx (_last_pickled_state handling)
+  edb/server/dbview/dbview.pyx          DatabaseIndex / Database / DatabaseConnectionView: the TEXT of the
+                                       working tree, translated by harness/translate/pyx2py.py (C declaration
+                                       layer stripped, nothing else) on every run and executed: parse, _compile,
+                                       as_compiled, _check_in_tx_error, start, start_tx, _apply_in_tx, on_error,
+                                       on_success, tx_error, declare_savepoint, rollback_tx_to_savepoint,
+                                       abort_tx, get/set_modaliases, get/set_session_config, apply_config_ops
+  edb/server/protocol/execute.pyx       execute() (same translator), against a scripted backend connection
 MODELLED glue (transliterated, cannot run here):
   - the statement loop of compiler._try_compile_ast for non-transaction statements
     (SET ALIAS -> Transaction.update_modaliases, DDL -> Transaction.update_schema) and the
     filling of QueryUnit.tx_id / sp_id / modaliases / user_schema;
-  - dbview.pyx (start / start_tx / on_error / on_success / declare_savepoint /
-    rollback_tx_to_savepoint / abort_tx / _check_in_tx_error) and the execute paths of
-    protocol/execute.pyx and protocol/binary.pyx;
+  - protocol/binary.pyx: the three-way dispatch of EdgeConnection.execute, _execute_rollback and
+    the main-loop error handler (RealSystem.request below mirrors them line by line);
+    with C09_DBVIEW=translit the older hand transliteration of dbview.pyx (class DbView) is used
+    instead of the translated source (debugging aid);
+  - dbview.serialize_state (backend session-state blob: irrelevant here) is replaced by a constant;
   - PostgreSQL itself: class PG below (independent oracle of transaction semantics).
 """
 import sys
@@ -91,6 +100,32 @@ class Rejected(Exception):
 
 
 class Unit:
+    # attributes of dbstate.QueryUnit read by dbview.pyx / execute.pyx (defaults of the dataclass)
+    sql = b'select 1'
+    status = b'OK'
+    has_ddl = has_set = False
+    system_config = database_config = False
+    global_schema = None
+    user_schema_version = None
+    extensions = frozenset()
+    ext_config_settings = ()
+    feature_used_metrics = None
+    cached_reflection = None
+    roles = None
+    create_db = drop_db = create_db_template = None
+    drop_db_reset_connections = False
+    create_db_mode = None
+    config_ops = ()
+    ddl_stmt_id = None
+    needs_readback = is_explain = False
+    source_map = None
+    sql_hash = b''
+    tx_abort_migration = False
+    cacheable = False
+    capabilities = enums.Capability(0)
+    warnings = ()
+    query_asts = None
+
     def __init__(self, stmt):
         self.stmt = stmt
         self.tx_id = None
@@ -132,7 +167,32 @@ def ql_of(st):
     return None
 
 
+class SessOp:
+    """a CONFIGURE SESSION operation whose application yields the given settings map"""
+    def __init__(self, new):
+        self.new = new
+
+    @property
+    def scope(self):
+        from edb.server import config
+        return config.ConfigScope.SESSION
+
+    def apply(self, settings, cur):
+        return self.new
+
+
+PICKLE_UNITS = False
+
+
 def compile_one(ctx, st):
+    u = _compile_one(ctx, st)
+    if PICKLE_UNITS and u.user_schema is not None:
+        # _try_compile_ast: unit.user_schema = pickle.dumps(comp.user_schema, -1)
+        u.user_schema = pickle.dumps(u.user_schema, -1)
+    return u
+
+
+def _compile_one(ctx, st):
     """one statement: the part of _try_compile_ast/_compile_dispatch_ql that matters here"""
     tx = ctx.state.current_tx()
     u = Unit(st)
@@ -168,6 +228,7 @@ def compile_one(ctx, st):
         # CONFIGURE SESSION ...: update_session_config + config ops applied by the server
         tx.update_session_config(mk_cfg(int(arg)))
         u.config = mk_cfg(int(arg))
+        u.config_ops = (SessOp(u.config),)
     elif k == 'DD':    # DDL: update_schema with the new user schema; unit.user_schema
         new = mk_schema(int(arg))
         tx.update_schema(s_schema.ChainedSchema(EMPTY, new, tx.get_global_schema()))
@@ -217,6 +278,45 @@ class Request:
 
     def get_cache_key(self):
         return None
+
+    # what dbview.pyx calls on a request
+    def serialize(self):
+        return self
+
+    def set_schema_version(self, v):
+        pass
+
+
+class Src(tuple):
+    """the scripted source ('S', stmt) | ('B', [stmts]) with the edgeql.Source methods dbview reads"""
+    def text(self):
+        return 'text'
+
+    def first_extra(self):
+        return None
+
+    def extra_counts(self):
+        return ()
+
+    def extra_blobs(self):
+        return ()
+
+    def extra_formatted_as_text(self):
+        return False
+
+    def extra_type_oids(self):
+        return ()
+
+
+class UnitGroup(list):
+    """duck-typed dbstate.QueryUnitGroup"""
+    capabilities = enums.Capability(0)
+    cacheable = False
+    cache_state = 0
+    tx_seq_id = 0
+    force_non_normalized = False
+    state_serializer = None
+    warnings = ()
 
 
 class FakeCompilerState:
@@ -272,6 +372,30 @@ class StubPool(pool_mod.AbstractPool):
 
     def _release_worker(self, worker, *, put_in_front=True):
         pass
+
+    async def compile(self, dbname, user_schema_pickle, global_schema_pickle, reflection_cache,
+                      database_config, system_config, req, text, **kw):
+        """AbstractPool.compile + worker.compile: state handling transliterated (2 lines each);
+        used by the translated dbview._compile outside a transaction"""
+        w = self.workers[0]
+        units, cstate = THE_COMPILER().compile(
+            user_schema=pickle.loads(user_schema_pickle), global_schema=EMPTY,
+            reflection_cache=immutables.Map(), database_config=None, system_config=None,
+            request=req)
+        w.mod.LAST_STATE = cstate
+        pickled = pickle.dumps(cstate, -1) if cstate is not None else None
+        w._last_pickled_state = pickled
+        return units, pickled, 0
+
+
+_THE_COMPILER = None
+
+
+def THE_COMPILER():
+    global _THE_COMPILER
+    if _THE_COMPILER is None:
+        _THE_COMPILER = TheCompiler(FakeCompilerState())
+    return _THE_COMPILER
 
 
 # ---------------------------------------------------------------- PostgreSQL oracle
@@ -579,6 +703,228 @@ class System:
         return 'A' + seen
 
 
+# ---------------------------------------------------------------- the real dbview / execute text
+_PYX = None
+
+
+def load_pyx():
+    """translate + execute the working tree's dbview.pyx and execute.pyx (fail closed:
+    a TranslateError propagates and the check reports a broken tie)"""
+    global _PYX
+    if _PYX is not None:
+        return _PYX
+    import types
+    import pyxload
+    pyxload.stub_module('edb.server.protocol.ai_ext',
+                        start_extension=lambda *a: None, stop_extension=lambda *a: None)
+
+    stmt_cache = pyxload.load(REPO, 'edb/server/cache/stmt_cache.pyx')
+    dbview = pyxload.load(REPO, 'edb/server/dbview/dbview.pyx', inject={'stmt_cache': stmt_cache})
+    # the backend session-state blob is irrelevant here (and needs the real config spec)
+    dbview.DatabaseConnectionView.serialize_state = lambda self: b'state'
+    if 'edgedb' not in sys.modules:
+        try:
+            import edgedb  # noqa
+        except Exception:
+            pyxload.stub_module('edgedb')
+    args_ser = types.SimpleNamespace(
+        combine_raw_args=lambda *a: b'', recode_bind_args=lambda *a: b'',
+        recode_bind_args_for_script=lambda *a: b'')
+    execute = pyxload.load(REPO, 'edb/server/protocol/execute.pyx',
+                           inject={'dbview': dbview, 'args_ser': args_ser, 'WriteBuffer': object})
+    execute.args_ser = args_ser
+    execute.dbview = dbview
+    from edb.server.pgcon import errors as pgerror
+    _PYX = (dbview, execute, pgerror)
+    return _PYX
+
+
+class FakeServer:
+    def __init__(self, pool):
+        self._pool = pool
+
+    def get_compiler_pool(self):
+        return self._pool
+
+    def config_lookup(self, name, *configs):
+        return None
+
+
+class FakeTenant:
+    client_id = 0
+    tenant_id = 'T'
+
+    def __init__(self, pool):
+        self.server = FakeServer(pool)
+
+    def get_instance_name(self):
+        return 'verif'
+
+    def set_roles(self, roles):
+        pass
+
+    def is_readonly(self):
+        return False
+
+    accept_new_tasks = False        # signal_side_effects: no system events are broadcast
+
+
+class BeConn:
+    """scripted backend connection: succeeds or fails as the PG oracle dictates"""
+    last_state = None
+    state_reset_needs_commit = False
+
+    def __init__(self, sysm):
+        self.sysm = sysm
+        self.fail = False
+
+    def _run(self):
+        if self.fail:
+            pgerror = _PYX[2]
+            raise pgerror.BackendError(fields={'C': '25P02', 'M': 'scripted backend failure'})
+
+    async def parse_execute(self, **kw):
+        self._run()
+        return None
+
+    async def sql_execute(self, sql):
+        self._run()
+
+    def in_tx(self):
+        return self.sysm.pg.block
+
+    def load_last_ddl_return(self, unit):
+        return None
+
+
+class RealSystem:
+    """same protocol as System, but dbview.pyx / execute.pyx are the translated source text"""
+
+    def __init__(self, sch, ali):
+        global _POOL, _LOOP, PICKLE_UNITS
+        PICKLE_UNITS = True
+        dbview, execute, pgerror = load_pyx()
+        self.dbview_mod, self.execute_mod = dbview, execute
+        self.pg = PG(sch, ali)
+        if _POOL is None:
+            _POOL = StubPool()
+            _LOOP = asyncio.new_event_loop()
+        for w in _POOL.workers:                 # fresh worker processes
+            w.mod.LAST_STATE = None
+            w._last_pickled_state = None
+        self.pool = _POOL
+        self.loop = _LOOP
+        self.be = BeConn(self)
+        self.loop.run_until_complete(self._setup(sch, ali))
+
+    async def _setup(self, sch, ali):
+        dbview = self.dbview_mod
+        self.index = dbview.DatabaseIndex(
+            FakeTenant(self.pool), std_schema=None, global_schema_pickle=b'',
+            sys_config=immutables.Map(), default_sysconfig=immutables.Map(), sys_config_spec=None)
+        self.db = self.index.register_db(
+            'db', user_schema_pickle=pickle.dumps(mk_schema(sch), -1), schema_version=None,
+            db_config=immutables.Map(), reflection_cache=immutables.Map(), backend_ids={},
+            extensions=set(), ext_config_settings=None)
+        self.dbv = self.index.new_view('db', query_cache=False, protocol_version=(3, 0))
+        # session state the client connected with (binary.pyx: decode_state -> set_*)
+        self.dbv.set_modaliases(mk_ali(ali))
+        self.dbv.set_session_config(mk_cfg(ali))
+
+    def close(self):
+        async def stop():
+            self.db.stop()
+            await asyncio.sleep(0)
+        self.loop.run_until_complete(stop())
+
+    def pg_ok(self, st, befail):
+        k, arg = st[:2], st[2:]
+        if k in ('RE', 'RT'):
+            return self.pg_before.has(arg) and self.pg_before.block
+        if k in ('DD', 'QU', 'CO'):
+            return not befail
+        return True
+
+    def request(self, body, befail, reuse, cali):
+        return self.loop.run_until_complete(self._request(body, befail, reuse, cali))
+
+    async def _request(self, body, befail, reuse, cali):
+        dbv = self.dbv
+        if cali is not None:                    # client-supplied state: decode_state
+            dbv.set_modaliases(dbv.get_modaliases().set('v', str(cali)))
+            dbv.set_session_config(mk_cfg(cali))
+        self.pool.prefer_free = reuse
+        req = Request(Src(body), dbv.get_modaliases(), dbv.get_session_config())
+        try:
+            return await self._execute(req, befail)
+        except RejectedReply as r:
+            return r.args[0]
+        except Exception as e:
+            # binary.pyx main loop: any error of a command -> dbview.tx_error(), error reply
+            pgerror = _PYX[2]
+            if not isinstance(e, (errors.EdgeDBError, pgerror.BackendError)):
+                raise
+            dbv.tx_error()
+            return getattr(e, '_c09_reply', 'R')
+
+    async def _execute(self, req, befail):
+        """binary.pyx EdgeConnection.execute: parse, then the three-way dispatch"""
+        dbv = self.dbv
+
+        # -- _parse: dbview.parse (REAL: cache lookup, _compile, check_capabilities,
+        #    _check_in_tx_error)
+        async def compile_wrapper(query_req):
+            units = await orig_compile(query_req)
+            return UnitGroup(units)
+        orig_compile = dbv._compile
+        dbv._compile = compile_wrapper          # only wraps the unit list into a group object
+        try:
+            compiled = await dbv.parse(req)
+        finally:
+            del dbv._compile
+        group = compiled.query_unit_group
+        u = group[0]
+        st = u.stmt
+        seen = 'A0.0'[1:] if st[:2] in ('RB', 'RT') else '%s.%s' % u.seen
+        self.be.fail = not self.pg_ok(st, befail)
+        if dbv.in_tx_error() or u.tx_savepoint_rollback or u.tx_abort_migration:
+            # -- _execute_rollback (transliterated from binary.pyx)
+            assert len(group) == 1
+            if not (u.tx_savepoint_rollback or u.tx_rollback or u.tx_abort_migration):
+                dbv.raise_in_tx_error()
+            if u.sql:
+                await self.be.sql_execute(u.sql)
+            if u.tx_abort_migration:
+                dbv.clear_tx_error()
+            elif u.tx_savepoint_rollback:
+                try:
+                    dbv.rollback_tx_to_savepoint(u.sp_name)
+                except RuntimeError:
+                    # not an EdgeDBError: the main loop treats it as an internal error; the
+                    # transaction is marked failed all the same
+                    dbv.tx_error()
+                    raise RejectedReply('R')
+            else:
+                assert u.tx_rollback
+                dbv.abort_tx()
+            return 'A' + seen
+        # -- _execute -> execute.execute (REAL)
+        try:
+            await self.execute_mod.execute(self.be, dbv, compiled, b'')
+        except Exception as e:
+            pgerror = _PYX[2]
+            if isinstance(e, pgerror.BackendError):
+                # reply classes of the protocol: a failed RELEASE is a plain rejection, any
+                # other backend failure is reported as 'B'
+                e._c09_reply = 'R' if st[:2] in ('RE', 'RT') else 'B' + seen
+            raise
+        return 'A' + seen
+
+
+class RejectedReply(Exception):
+    pass
+
+
 def parse(line):
     parts = [p.strip() for p in line.split(';')]
     hd = parts[0].split()
@@ -603,7 +949,7 @@ def main():
         if not line:
             continue
         sch, ali, reqs = parse(line)
-        sysm = System(sch, ali)
+        sysm = (System if os.environ.get('C09_DBVIEW') == 'translit' else RealSystem)(sch, ali)
         res = []
         try:
             for body, bf, ru, ca in reqs:
